@@ -11,10 +11,10 @@ H = "harness/E4_equiv.py"
 
 
 def jobs_for(ctx: Ctx, kind: str, n: int, batch: int, timeout: float, region: str | None = None, key: str | None = None,
-             fuel: int = 80, total: int | None = None):
+             fuel: int = 80, total: int | None = None, harness: str = H, fn: str = "h_equiv", upto: int | None = None):
     total = total if total is not None else n
     jobs = []
-    idx = list(range(total))
+    idx = list(range(total if upto is None else min(total, upto)))
     for b in range(0, len(idx), batch):
         chunk = idx[b:b + batch]
         env = {"VERIF_E4_KIND": kind, "VERIF_E4_N": n, "VERIF_E4_SEED": ctx.seed if kind != "c32" else 0,
@@ -22,7 +22,7 @@ def jobs_for(ctx: Ctx, kind: str, n: int, batch: int, timeout: float, region: st
         if region:
             env["VERIF_E4_REGION"] = region
         tag = f"{kind}{'/' + region if region else ''}[{chunk[0]}..{chunk[-1]}]"
-        jobs.append(Job(H, "h_equiv", timeout=timeout, name=f"h_equiv:{tag}", env=env,
+        jobs.append(Job(harness, fn, timeout=timeout, name=f"{fn}:{tag}", env=env,
                         role=f"finding:{key}" if key else "main"))
     return jobs
 
@@ -45,4 +45,16 @@ def collect_verdicts(ctx: Ctx, crash_is_note: bool = False) -> dict:
                 else:
                     ctx.harness_errors.append(f"program {rec['index']} {v}: {rec['why']}")
             out["programs"].append({"file": os.path.basename(f), "index": rec["index"], "verdict": v, "why": rec["why"], "src": rec["src"]})
+    return out
+
+
+def collect_e5(ctx: Ctx) -> dict:
+    out = {"unsupported_programs": {}, "paths_outside": {}, "programs": 0, "accepted": 0}
+    for f in sorted(glob.glob(os.path.join(ctx.workdir, "e5report_*.json"))):
+        r = json.load(open(f))
+        out["unsupported_programs"].update(r["unsupported"])
+        for k, v in r["paths_outside"].items():
+            out["paths_outside"][k] = out["paths_outside"].get(k, 0) + v
+        out["programs"] += r["programs"]
+        out["accepted"] += r["accepted"]
     return out
